@@ -99,7 +99,7 @@ Qed.
 (* witnesses *)
 Definition wit_F14 : list event := [Accept; InitRead IEof; CloseDone; AcceptReturns].
 Definition wit_F15 : list event := [Create; ConnectStart; Cancel].
-Definition wit_F27 : list event := [Create; ConnectStart; Disconnect RRequested; ConnectOk; SendInit SOk; ReaderGets XMsg; Send SOk].
+Definition wit_N1 : list event := [Create; ConnectStart; Disconnect RRequested; ConnectOk; SendInit SOk; ReaderGets XMsg; Send SOk].
 
 Lemma monotone_refuted : exists k t es, ~ chain k (reported (run (init k t) es)).
 Proof. exists Incoming, TP, wit_F14. vm_compute. intros (_ & H & _). discriminate. Qed.
@@ -110,14 +110,14 @@ Proof. exists Incoming, TP, wit_F14. split; [discriminate|]. vm_compute. intros 
 Lemma no_delivery_after_closed_refuted : exists k t es c x,
   k <> Server /\ c = run (init k t) es /\ In CLOSED (reported c) /\ delivered (step c (ReaderGets x)) = S (delivered c).
 Proof.
-  exists Outgoing, TP, (firstn 5 wit_F27), (run (init Outgoing TP) (firstn 5 wit_F27)), XMsg.
+  exists Outgoing, TP, (firstn 5 wit_N1), (run (init Outgoing TP) (firstn 5 wit_N1)), XMsg.
   split; [discriminate|]. split; [reflexivity|]. vm_compute. split; [tauto|reflexivity].
 Qed.
 
 Lemma send_after_closed_refuted : exists k t es c,
   k <> Server /\ c = run (init k t) es /\ In CLOSED (reported c) /\ sent (step c (Send SOk)) = S (sent c).
 Proof.
-  exists Outgoing, TP, (firstn 6 wit_F27), (run (init Outgoing TP) (firstn 6 wit_F27)).
+  exists Outgoing, TP, (firstn 6 wit_N1), (run (init Outgoing TP) (firstn 6 wit_N1)).
   split; [discriminate|]. split; [reflexivity|]. vm_compute. split; [tauto|reflexivity].
 Qed.
 
@@ -125,7 +125,7 @@ Lemma registry_exact_refuted : exists k t es,
   let c := run (init k t) es in quiescent c = true /\ in_reg c <> should_be_registered c.
 Proof. exists Outgoing, TP, wit_F15. vm_compute. split; [reflexivity|discriminate]. Qed.
 
-Lemma registry_exact_refuted_F27 : exists k t es,
+Lemma registry_exact_refuted_N1 : exists k t es,
   let c := run (init k t) es in quiescent c = true /\ in_reg c = false /\ should_be_registered c = true.
-Proof. exists Outgoing, TP, wit_F27. vm_compute. repeat split. Qed.
+Proof. exists Outgoing, TP, wit_N1. vm_compute. repeat split. Qed.
 
